@@ -455,7 +455,7 @@ func TestVerifC13(t *testing.T) {
 				})
 			}
 			if pi != nil {
-				c.Failf(fmt.Sprintf("panic:%s:%s@%s", kc.kind, pi.site, strings.SplitN(pi.phase, "#", 2)[0]), "%s spec accepted by validation panics in %s: %s (at %s)\ndeviations from the base spec: %v\n%s", kc.kind, pi.phase, pi.msg, pi.site, applied, y)
+				c.Failf(fmt.Sprintf("panic:%s:%s@%s:%s", kc.kind, pi.site, strings.SplitN(pi.phase, "#", 2)[0], msgClass(pi.msg)), "%s spec accepted by validation panics in %s: %s (at %s)\ndeviations from the base spec: %v\n%s", kc.kind, pi.phase, pi.msg, pi.site, applied, y)
 			}
 			if accepted {
 				c.Outcome(kc.kind + ":accepted")
@@ -466,4 +466,26 @@ func TestVerifC13(t *testing.T) {
 		jobs = append(jobs, mc.ExploreJob(mc.Options{Job: "kind/" + kc.kind, MaxDev: maxDev}, run))
 	}
 	mc.RunJobs("C13", jobs)
+}
+
+// msgClass turns a panic message into a short class name (its first alphabetic words), so that two
+// different panics at the same site get different finding keys.
+func msgClass(m string) string {
+	var w []string
+	for _, f := range strings.Fields(m) {
+		f = strings.Trim(f, ":,.'\"()")
+		ok := f != ""
+		for _, r := range f {
+			if !(r >= 'a' && r <= 'z' || r >= 'A' && r <= 'Z') {
+				ok = false
+			}
+		}
+		if ok {
+			w = append(w, strings.ToLower(f))
+		}
+		if len(w) == 7 {
+			break
+		}
+	}
+	return strings.Join(w, "-")
 }
